@@ -3,7 +3,7 @@
 (* RecReader, csv2, fixedlength2, edi) on hierarchies and unit sequences far   *)
 (* beyond the exhaustively enumerated scope.  One event = one complete run:    *)
 (* the hierarchy, the unit sequence, and what the implementation delivered     *)
-(* (instances as pre-order <<node name, unit, depth>>) and how it ended.       *)
+(* (instances as pre-order <<node name, first unit, depth, last unit>>) and how it ended.       *)
 (* TLC evaluates both the reference matcher and the stack machine on the       *)
 (* logged case and demands that the observation equals both.                   *)
 EXTENDS Hierarchy, Json, IOUtils
@@ -17,7 +17,7 @@ NameOf(H, d, impl) ==
   IF impl = "edi" /\ ~H.grp[d] THEN H.nm[d] ELSE "d" \o ToString(d)
 
 View(H, out, impl) ==
-  [i \in 1..Len(out) |-> [k \in 1..Len(out[i]) |-> <<NameOf(H, out[i][k][1], impl), out[i][k][2], out[i][k][3]>>]]
+  [i \in 1..Len(out) |-> [k \in 1..Len(out[i]) |-> <<NameOf(H, out[i][k][1], impl), out[i][k][2], out[i][k][3], out[i][k][4]>>]]
 
 ErrName(H, d, impl) == IF d = 0 THEN "" ELSE NameOf(H, d, impl)
 
